@@ -64,7 +64,7 @@ def table_history(ctx, prog, stats):
     stats["table_histories"] += 1
 
 
-def function_history(ctx, prog, stats):
+def function_history(ctx, prog, stats, directed=False):
     rng = ctx.rng
     w = world_from(prog["spec"])
     defs = prog["defs"]
@@ -73,10 +73,24 @@ def function_history(ctx, prog, stats):
     mops = []
     nid = 100
     used = False
-    for step in range(rng.randint(4, 14)):
+    script = None
+    if directed:
+        # register everything, re-register one signature identically, unregister the newer copy: the survivor keeps its
+        # pushed-down tiebreak and now competes with the other signatures
+        x = rng.choice(defs)
+        script = [("reg", d) for d in defs if d is not x] + [("reg", x), ("reg", x), ("unreg_last",), ("probe",)]
+        rng.shuffle(script[: len(defs) - 1])
+    for step in range(len(script) if script else rng.randint(4, 14)):
         r = rng.random()
+        if script:
+            act = script[step]
+            r = 0.0 if act[0] == "reg" else 0.6 if act[0] == "unreg_last" else 0.9
+            forced = act
         if r < 0.5 or not live:
-            d = dict(rng.choice(defs))
+            # 40%: re-register a signature that is live (identical signature -> push-down)
+            d = dict(rng.choice(live if (live and rng.random() < 0.4) else defs))
+            if script:
+                d = dict(forced[1])
             d["id"] = nid
             nid += 1
             b.register(d)
@@ -84,7 +98,11 @@ def function_history(ctx, prog, stats):
             mops.append([0, progs.enc_method(d)])
             desc = ["register", d]
         elif r < 0.7:
-            d = rng.choice(live)
+            # prefer the newest of a group of identical signatures (leaves a pushed-down survivor behind)
+            dups = [x for x in live if sum(1 for y in live if R_same_sig(x, y)) > 1]
+            d = dups[-1] if (dups and rng.random() < 0.6) else rng.choice(live)
+            if script:
+                d = live[-1]
             b.unregister(d["id"])
             live = [x for x in live if x["id"] != d["id"]]
             mops.append([1, d["id"]])
@@ -125,12 +143,111 @@ def function_history(ctx, prog, stats):
     stats["function_histories"] += 1
 
 
+def names_and_linkback_history(ctx, prog, stats):
+    """(a) methods whose positional parameters carry different names, probed with positionals passed by keyword: the
+    calling convention after register / unregister must be that of a function built from the resulting method set;
+    (b) a child created with linkback from a parent that is never called itself: changes of the parent must show in the child"""
+    rng = ctx.rng
+    w = world_from(prog["spec"])
+    defs = [dict(d, kw=[], npos_req=len(d["pos"])) for d in prog["defs"] if len(d["pos"]) == len(prog["defs"][0]["pos"])]
+    if not defs:
+        return
+    npos = len(defs[0]["pos"])
+    pool = [[f"a{i}" for i in range(npos)], [f"b{i}" for i in range(npos)], [f"a{i}" for i in range(npos)]]
+    for d in defs:
+        d["names"] = rng.choice(pool)
+    b = progs.Built(w, [])
+    live = []
+    nid = 300
+
+    def probe(tag):
+        fresh = progs.Built(world_from(prog["spec"]), live)
+        for call in prog["calls"]:
+            if len(call["pos"]) != npos:
+                continue
+            for names in ([f"a{i}" for i in range(npos)], [f"b{i}" for i in range(npos)], None):
+                def do(bb):
+                    vals = [bb.w.instance(c) for c in call["pos"]]
+                    try:
+                        if names is None:
+                            return bb.call(vals)[0]
+                        return bb.call(vals[:-1], {names[-1]: vals[-1]})[0]
+                    except Exception as e:  # noqa
+                        return ["exc", type(e).__name__]
+                got, exp = do(b), do(fresh)
+                got = got if got[0] != "exc" else ["exc"]
+                exp = exp if exp[0] != "exc" else ["exc"]
+                stats["evaluations"] += 1
+                if got != exp:
+                    ctx.violation(f"after {tag}: call with {'positional' if names is None else 'last argument as keyword ' + names[-1]} gives {got}, a function built from the resulting method set gives {exp}",
+                                  {"spec": prog["spec"], "live": live, "calls": [call], "history": hist})
+                    return False
+        return True
+    hist = []
+    for step in range(rng.randint(3, 8)):
+        if live and rng.random() < 0.35:
+            d = rng.choice(live)
+            b.unregister(d["id"])
+            live = [x for x in live if x["id"] != d["id"]]
+            hist.append(["unregister", d["id"]])
+        else:
+            d = dict(rng.choice(defs)); d["id"] = nid; nid += 1
+            try:
+                b.register(d)
+            except TypeError:
+                # conflicting names: the fresh function must reject the same set
+                try:
+                    progs.Built(world_from(prog["spec"]), live + [d])
+                    # Built registers lazily; force a build
+                    fb = progs.Built(world_from(prog["spec"]), live + [d]); fb.ov.compile()
+                    ctx.violation("register rejected a method set that a fresh function accepts", {"spec": prog["spec"], "live": live + [d], "history": hist})
+                    return
+                except TypeError:
+                    return
+            live.append(d)
+            hist.append(["register", d])
+        if live and rng.random() < 0.7:
+            try:
+                if not probe(hist[-1][0]):
+                    return
+            except TypeError:
+                return
+    # (b) linkback
+    import ovld
+    wl = world_from(prog["spec"])
+    parent = progs.Built(wl, [])
+    child_ov = ovld.Ovld(mixins=[parent.ov], linkback=True, name="child")
+    plive = []
+    for step in range(rng.randint(2, 5)):
+        d = dict(rng.choice(defs)); d["id"] = nid; nid += 1; d.pop("names", None)
+        parent.register(d)
+        plive.append(d)
+        fresh = progs.Built(world_from(prog["spec"]), plive)
+        for call in prog["calls"]:
+            if len(call["pos"]) != npos:
+                continue
+            vals = [wl.instance(c) for c in call["pos"]]
+            try:
+                r = child_ov(*vals); got = ["run", r[1]]
+            except TypeError as e:
+                got = ["nomethod"] if str(e).startswith("No method") else ["ambig"] if str(e).startswith("Ambiguous") else ["exc"]
+            exp = fresh.call([fresh.w.instance(c) for c in call["pos"]])[0]
+            exp = exp if exp[0] != "exc" else ["exc"]
+            # ids differ between parent's methods and fresh ones only by construction order: same ids are used
+            stats["evaluations"] += 1
+            if got != exp:
+                ctx.violation(f"linkback child after a registration on its (never called) parent gives {got}, a function built from the parent's methods gives {exp}",
+                              {"spec": prog["spec"], "live": plive, "calls": [call], "linkback": True})
+                return
+    stats["name_linkback_histories"] += 1
+
+
 def R_same_sig(a, b):
     return a["pos"] == b["pos"] and a["kw"] == b["kw"] and a["npos_req"] == b["npos_req"] and a["prio"] == b["prio"]
 
 
 def run(ctx):
-    stats = {"evaluations": 0, "table_histories": 0, "function_histories": 0, "kf04": 0, "kf05": 0}
+    stats = {"evaluations": 0, "table_histories": 0, "function_histories": 0, "kf04": 0, "kf05": 0, "name_linkback_histories": 0}
     samples = []
     n = 50 if ctx.quick() else 2000
     distinct = set()
@@ -140,6 +257,8 @@ def run(ctx):
             continue
         table_history(ctx, prog, stats)
         function_history(ctx, prog, stats)
+        function_history(ctx, prog, stats, directed=True)
+        names_and_linkback_history(ctx, prog, stats)
         distinct.add(hash(json.dumps(prog)))
         if len(samples) < 2:
             samples.append({"defs": prog["defs"][:3], "calls": prog["calls"][:3]})
@@ -147,7 +266,7 @@ def run(ctx):
             break
     return {"evaluations": stats["evaluations"], "distinct_nontrivial": len(distinct),
             "rule": "random programs (as C02); table histories: 6-20 steps mixing registrations and plain accesses on a real MultiTypeMap; function histories: 4-14 steps of register (incl. re-registration of an identical signature) / unregister / probe on a real Ovld, all calls probed after every step against a function freshly built from the resulting method set; distinct by program content, each history counts as non-trivial (at least one change between probes)",
-            "samples": samples, "table_histories": stats["table_histories"], "function_histories": stats["function_histories"],
+            "samples": samples, "histories_with_differing_parameter_names_and_linkback_children": stats["name_linkback_histories"], "table_histories": stats["table_histories"], "function_histories": stats["function_histories"],
             "stale_results_attributed_to_KF-04": stats["kf04"], "tiebreak_history_attributed_to_KF-05": stats["kf05"],
             "traces_validated_against_impl": stats["evaluations"]}
 
